@@ -88,6 +88,28 @@ def main(src):
                 pass
         return d
 
+    def describe_patterns(raw):
+        """regex-like class attributes: re.Pattern, pattern_tools.Pattern, or a tuple/list of them."""
+        try:
+            from fparser.two import pattern_tools as _pt
+        except Exception:
+            _pt = None
+        def one(x):
+            if isinstance(x, re.Pattern):
+                return {"kind": "re", "pattern": x.pattern, "flags": x.flags}
+            if _pt is not None and isinstance(x, _pt.Pattern):
+                c = x.get_compiled()
+                return {"kind": "Pattern", "pattern": c.pattern, "flags": c.flags, "value": x.value, "label": x.label}
+            return None
+        r = one(raw)
+        if r is not None:
+            return [r]
+        if isinstance(raw, (tuple, list)) and raw:
+            lst = [one(x) for x in raw]
+            if all(x is not None for x in lst):
+                return lst
+        return None
+
     def add_class(cls):
         k = key_of(cls)
         if k in classes:
@@ -102,6 +124,9 @@ def main(src):
                 own[name] = describe_callable(raw)
             else:
                 v = {"kind": "data", "type": type(raw).__name__}
+                pats = describe_patterns(raw)
+                if pats is not None:
+                    v["patterns"] = pats
                 if isinstance(raw, (str, int, bool, type(None))):
                     v["value"] = raw
                 elif isinstance(raw, (list, tuple)) and all(isinstance(x, (str, int, type(None))) for x in raw):
